@@ -567,7 +567,7 @@ def corr_eval(ctx, batch):
             ctx.count({"eval": rq}, nontrivial=True, kind="%s:%s" % (rq.split("|")[0], rq.split("|")[1]))
             if w is None:
                 if "x" not in a.split(","):
-                    ctx.disagree("stackEval fails <-> the real task fails", {"request": rq}, a, "exception")
+                    ctx.disagree("stackUnified = real stack (real side raised)", {"request": rq}, a, "exception")
             elif a != w:
                 ctx.disagree("Lean whole-op semantics = %s" % i, {"request": rq}, a, w)
         return f
